@@ -304,7 +304,13 @@ func mapField(
 		if nextSource.Pointer {
 			innerStmt = append(innerStmt, jen.Id(tempName).Op("=").Add(returnID.Code))
 		} else {
-			pstmt, pointerID := returnID.Pointer(nextSource, ctx.Name)
+			pointerOf := returnID
+			if ctx.Conf.SkipCopySameType {
+				// With skipCopySameType the pointer may end up in the target as it is,
+				// therefore it must point to a copy and not into the source.
+				pointerOf = xtype.OtherID(returnID.Code)
+			}
+			pstmt, pointerID := pointerOf.Pointer(nextSource, ctx.Name)
 			innerStmt = append(innerStmt, pstmt...)
 			innerStmt = append(innerStmt, jen.Id(tempName).Op("=").Add(pointerID.Code))
 		}
